@@ -1,15 +1,23 @@
 /-
-C10 — the bot's own JOIN (one JOIN + burst per channel) and the JOIN action as a whole.
+C10 — the bot's own JOIN (JOIN + topic + NAMES per channel), the replies to its WHO / MODE / MODE +b
+queries (served in order, or unsolicited), and the invariant of `run`.
 -/
 import LimnoriaModel.C10.Burst6
 namespace C10
 open Py
 
-/-- the bot enters one channel: JOIN echo, then the burst -/
+theorem mSynced_sdel (s : Srv) (l : List Str) (k k' : Str) (h : k' ≠ k) :
+    decide (k' ∈ sdel l k) = decide (k' ∈ l) := by simp [mem_sdel, h]
+theorem mSynced_sadd (l : List Str) (k k' : Str) (h : k' ≠ k) :
+    decide (k' ∈ sadd l k) = decide (k' ∈ l) := by simp [mem_sadd, h]
+
+/-- the bot enters one channel: JOIN echo, then topic and NAMES; the channel counts as not yet synced -/
 theorem own_join_one {s s1 : Srv} {b : Bot} (hw : SrvWF s) (hc : Coupled s b) {ub : SUser}
     (hub : aget s.users s.botKey = some ub) {c name : Str} (he : s.enter s.botKey c = some (s1, name)) {sc1 : SChan}
     (hsc1 : s1.chan c = some sc1) :
-    Coupled s1 (b.recvAll (emit ub.mask "JOIN" (joinArgs s.cfg name) :: s1.joinBurst sc1)) := by
+    Coupled { s1 with modesSynced := sdel s1.modesSynced (lower c), bansSynced := sdel s1.bansSynced (lower c),
+                      told := if s1.cfg.uhnames then addAll (sadd s1.told s1.botKey) sc1.keys else sadd s1.told s1.botKey }
+      (b.recvAll (emit ub.mask "JOIN" (joinArgs s.cfg name) :: s1.joinBurst sc1)) := by
   have hw1 : SrvWF s1 := enter_wf hw (by simp [hub]) he
   obtain ⟨hvalid, sc1', hs1, hname, hcase⟩ := enter_spec he
   subst hs1
@@ -21,7 +29,6 @@ theorem own_join_one {s s1 : Srv} {b : Bot} (hw : SrvWF s) (hc : Coupled s b) {u
   have hcw1 := hw1.chans (lower c) sc1 (aget_aset_self _ _ _)
   have hkey : lower name = lower c := by rw [← hname]; exact hcw1.key
   have hcomma : ',' ∉ name := by rw [← hname]; exact chan_noComma_of_valid hcw1.name
-  -- before: the bot has no record of the channel, and the new member list contains the bot
   have hrel := hc.chans (lower c)
   have hbn : aget b.channels (lower c) = none ∧ sc1.has s.botKey = true := by
     rcases hcase with ⟨hnone, _, hsc⟩ | ⟨sc, hsome, hnot, hsc⟩
@@ -62,24 +69,21 @@ theorem own_join_one {s s1 : Srv} {b : Bot} (hw : SrvWF s) (hc : Coupled s b) {u
   rw [hj]
   obtain ⟨b1, hb1⟩ : ∃ b1, b1 = ({ b.seen ub with channels := aset b.channels (lower c) { Chan.empty with users := [s.botKey] } } : Bot) := ⟨_, rfl⟩
   rw [← hb1]
-  -- the burst
+  -- topic and NAMES
   have hat : AtSrv { s with chans := aset s.chans (lower c) sc1 } b1 := by
     refine ⟨hw1, ?_⟩
     rw [hb1]; exact hc.nick
   have hch1 : aget b1.channels (lower c) = some { Chan.empty with users := [s.botKey] } := by
     rw [hb1]; exact aget_aset_self _ _ _
   obtain ⟨hf, ⟨ch', hch', hm'⟩, hn'⟩ := burst_effect hat (aget_aset_self _ _ _) hbot1 hch1
-  -- conclude
-  refine coupled_update hc (lower c) rfl rfl rfl hw1.chansNodup (fun k hk => aget_aset_ne _ _ (Ne.symm hk)) ?_ ?_ ?_ ?_ ?_ ?_ ?_ ?_ ?_
-  · intro k hk
-    rw [hf.others k hk, hb1]
-    exact aget_aset_ne _ _ (Ne.symm hk)
-  · rw [aget_aset_self, hch']
-    exact ⟨hbot1, hm'⟩
-  · rw [hf.nick, hb1]; rfl
-  · rw [hf.cfgNick, hb1]; rfl
-  · rw [hf.cfgIdent, hb1]; rfl
-  · intro k u hu hcorrect
+  have hb1n2h : aget b1.n2h s.botKey = some ub.mask := by
+    rw [hb1]
+    show aget (aset b.n2h (lower ub.nick) ub.mask) s.botKey = _
+    have : lower ub.nick = s.botKey := by rw [hubn]; rfl
+    rw [this, aget_aset_self]
+  have hkeep : ∀ k u, aget s.users k = some u → aget b.n2h k = some u.mask →
+      aget (b1.recvAll (Srv.joinBurst { s with chans := aset s.chans (lower c) sc1 } sc1)).n2h k = some u.mask := by
+    intro k u hu hcorrect
     have h1 : aget b1.n2h k = some u.mask := by
       rw [hb1]
       show aget (aset b.n2h (lower ub.nick) ub.mask) k = _
@@ -88,16 +92,44 @@ theorem own_join_one {s s1 : Srv} {b : Bot} (hw : SrvWF s) (hc : Coupled s b) {u
       · have : k = s.botKey := by rw [← hk, hubn]; rfl
         subst this; rw [hub] at hu; cases hu; simp [hk]
       · simp only [hk, ↓reduceIte]; exact hcorrect
-    rcases hf.n2h k with e | ⟨u', hu', e⟩
-    · rw [e]; exact h1
-    · have hu'' : aget s.users k = some u' := hu'
-      rw [hu] at hu''; cases hu''; exact e
-  · intro sc' k u hsc' _ hk hu
-    rw [aget_aset_self] at hsc'; cases hsc'
-    obtain ⟨f, hf'⟩ := has_iff.mp hk
-    obtain ⟨u', hu', hn⟩ := hn' (k, f) hf'
-    have hu'' : aget s.users k = some u' := hu'
-    rw [hu] at hu''; cases hu''; exact hn
+    exact hf.keeps hu h1
+  -- conclude
+  refine coupled_update hc (lower c) rfl rfl rfl ?_ (fun k hk => aget_aset_ne _ _ (Ne.symm hk)) ?_ ?_ ?_ ?_ ?_ ?_ ?_ ?_
+  · intro k hk
+    exact ⟨mSynced_sdel s _ _ _ hk, mSynced_sdel s _ _ _ hk⟩
+  · intro k hk
+    rw [hf.others k hk, hb1]
+    exact aget_aset_ne _ _ (Ne.symm hk)
+  · show ChanRel _ (lower c) (aget (aset s.chans (lower c) sc1) (lower c)) _
+    rw [aget_aset_self, hch']
+    refine ⟨hbot1, ?_⟩
+    show ChanMatches s.cfg.multiPrefix (decide (lower c ∈ sdel s.modesSynced (lower c)))
+      (decide (lower c ∈ sdel s.bansSynced (lower c))) sc1 ch'
+    have e1 : decide (lower c ∈ sdel s.modesSynced (lower c)) = false := by simp [mem_sdel]
+    have e2 : decide (lower c ∈ sdel s.bansSynced (lower c)) = false := by simp [mem_sdel]
+    rw [e1, e2]
+    exact hm'
+  · rw [hf.nick, hb1]; rfl
+  · rw [hf.cfgNick, hb1]; rfl
+  · rw [hf.cfgIdent, hb1]; rfl
+  · intro k u hu ht
+    have ht' : k ∈ (if s.cfg.uhnames then addAll (sadd s.told s.botKey) sc1.keys else sadd s.told s.botKey) := ht
+    have hbase : k ∈ sadd s.told s.botKey → aget (b1.recvAll (Srv.joinBurst { s with chans := aset s.chans (lower c) sc1 } sc1)).n2h k = some u.mask := by
+      intro hk
+      rcases mem_sadd.mp hk with rfl | hk
+      · rw [hub] at hu; cases hu
+        exact hf.keeps hub hb1n2h
+      · exact hkeep k u hu (hc.hosts k u hu hk)
+    by_cases huh : s.cfg.uhnames = true
+    · simp only [huh, ↓reduceIte] at ht'
+      rcases mem_addAll.mp ht' with h | h
+      · exact hbase h
+      · obtain ⟨f, hf'⟩ := mem_keys.mp h
+        obtain ⟨u', hu', hn⟩ := hn' huh (k, f) hf'
+        have hu'' : aget s.users k = some u' := hu'
+        rw [hu] at hu''; cases hu''; exact hn
+    · simp only [huh, Bool.false_eq_true, ↓reduceIte] at ht'
+      exact hbase ht'
   · intro u hu _
     rw [hf.pfx, hb1]
     show (if ub.nick = b.nick then ub.mask else b.pfx) = _
@@ -124,8 +156,6 @@ theorem joinBot_sim (ub : SUser) (cs : List Str) :
       simp only []
       have hw1 : SrvWF s1 := enter_wf hw (by simp [hub]) he
       have hus := enter_users he
-      have hub1 : aget s1.users s1.botKey = some ub := by
-        simp only [Srv.botKey, hus.1, hus.2.1]; exact hub
       obtain ⟨_, sc1, hs1, _, _⟩ := enter_spec he
       have hsc1 : s1.chan c = some sc1 := by
         rw [hs1]; show aget (aset s.chans (lower c) sc1) (lower c) = _; exact aget_aset_self _ _ _
@@ -133,7 +163,9 @@ theorem joinBot_sim (ub : SUser) (cs : List Str) :
       simp only []
       have hone := own_join_one hw hc hub he hsc1
       rw [recvAll_append]
-      exact ih s1 _ hw1 hone hub1
+      refine ih _ _ (wf_congr hw1 rfl rfl rfl rfl) hone ?_
+      show aget s1.users s1.botKey = some ub
+      simp only [Srv.botKey, hus.1, hus.2.1]; exact hub
 
 theorem coupled_join {s : Srv} {b : Bot} (hw : SrvWF s) (hc : Coupled s b) (n : Str) (cs : List Str) :
     Coupled (s.step (.join n cs)).1 (b.recvAll (s.step (.join n cs)).2) := by
@@ -152,14 +184,15 @@ theorem coupled_join {s : Srv} {b : Bot} (hw : SrvWF s) (hc : Coupled s b) (n : 
       exact coupled_join_others hw hc n cs hu hb'
 
 theorem view_channel' {s : Srv} {b : Bot} (hc : Coupled s b) {k : Str} {sc : SChan} (hs : aget s.chans k = some sc)
-    (hb : sc.has s.botKey = true) : ∃ ch, aget b.channels k = some ch ∧ ChanMatches sc ch := by
+    (hb : sc.has s.botKey = true) :
+    ∃ ch, aget b.channels k = some ch ∧ ChanMatches s.cfg.multiPrefix (s.mSynced k) (s.bSynced k) sc ch := by
   have h := hc.chans k
   rw [hs] at h
   cases hbc : aget b.channels k with
   | none => rw [hbc] at h; simp only [ChanRel] at h; rw [hb] at h; cases h
   | some ch => rw [hbc] at h; exact ⟨ch, rfl, h.2⟩
 
-/-! ### stand-alone (possibly late) replies to the MODE / MODE +b queries -/
+/-! ### replies to the MODE / MODE +b queries, solicited or not -/
 
 theorem bot_chan_none {s : Srv} {b : Bot} (hc : Coupled s b) {k : Str} {sc : SChan} (hsc : aget s.chans k = some sc)
     (hb : sc.has s.botKey = false) : aget b.channels k = none := by
@@ -169,49 +202,58 @@ theorem bot_chan_none {s : Srv} {b : Bot} (hc : Coupled s b) {k : Str} {sc : SCh
   | none => rfl
   | some ch => rw [hbc] at hrel; simp only [ChanRel] at hrel; rw [hb] at hrel; exact absurd hrel.1 (by simp)
 
-theorem coupled_modeis {s : Srv} {b : Bot} (hw : SrvWF s) (hc : Coupled s b) (c : Str) :
-    Coupled (s.step (.modeis c)).1 (b.recvAll (s.step (.modeis c)).2) := by
-  simp only [Srv.step]
+theorem coupled_replyMode {s : Srv} {b : Bot} (hw : SrvWF s) (hc : Coupled s b) (c : Str) :
+    Coupled (s.replyMode c).1 (b.recvAll (s.replyMode c).2) := by
+  unfold Srv.replyMode
   split
   · rename_i sc hch
     rw [Srv.chan_eq] at hch
     have hcw := hw.chans _ _ hch
     have hat : AtSrv s b := ⟨hw, hc.nick⟩
+    have hkey := hcw.key
     by_cases hb : sc.has s.botKey = true
-    · obtain ⟨ch, hbc, hm⟩ := view_channel' hc hch hb
-      simp only [recvAll_cons, recvAll_nil]
+    · have hbi : s.botIn sc = true := hb
+      obtain ⟨ch, hbc, hm⟩ := view_channel' hc hch hb
+      simp only [hbi, ↓reduceIte, recvAll_cons, recvAll_nil]
       rw [mode_line hat hch hbc]
-      have hkey := hcw.key
       obtain ⟨ch4, hb4, hv4⟩ := created_line (s := s)
         (b := { b with channels := aset b.channels (lower c) { ch with modes := sc.modes.foldl (fun acc e => aset acc e.1 e.2) ch.modes } })
         ⟨hw, hc.nick⟩ sc (by rw [hkey]; exact aget_aset_self _ _ _)
       rw [hb4]
       simp only [hkey, aset_aset]
-      apply coupled_of_frame hc (frame_setChan s (lower c) b ch4)
-      rw [hch]
-      show ChanRel s (some sc) (aget (aset b.channels (lower c) ch4) (lower c))
-      rw [aget_aset_self]
-      refine ⟨hb, ?_⟩
-      refine ⟨?_, ?_, ?_, ?_, ?_, ?_, ?_⟩
-      · intro x; rw [hv4.users]; exact hm.users x
-      · intro x; rw [hv4.ops]; exact hm.ops x
-      · intro x; rw [hv4.halfops]; exact hm.halfops x
-      · intro x; rw [hv4.voices]; exact hm.voices x
-      · rw [hv4.topic]; exact hm.topic
-      · intro m
-        rw [hv4.modes]
-        show aget (sc.modes.foldl (fun acc e => aset acc e.1 e.2) ch.modes) m = _
-        rw [foldl_aset_get _ _ hcw.modesNodup]
-        cases hg : aget sc.modes m with
-        | some v => rfl
-        | none => simp only; rw [hm.modes, hg]
-      · intro x; rw [hv4.bans]; exact hm.bans x
+      refine coupled_of_frame hc (frame_setChan s (lower c) b ch4) rfl rfl rfl rfl ?_ ?_ (fun _ _ _ h => Or.inl h)
+      · intro k' hk'
+        exact ⟨mSynced_sadd _ _ _ hk', rfl⟩
+      · rw [hch]
+        show ChanRel _ (lower c) (some sc) (aget (aset b.channels (lower c) ch4) (lower c))
+        rw [aget_aset_self]
+        refine ⟨hb, ?_⟩
+        have hlook : ∀ m, aget ch4.modes m = aget sc.modes m := by
+          intro m
+          rw [hv4.modes]
+          show aget (sc.modes.foldl (fun acc e => aset acc e.1 e.2) ch.modes) m = _
+          rw [foldl_aset_get _ _ hcw.modesNodup]
+          cases hg : aget sc.modes m with
+          | some v => rfl
+          | none =>
+            simp only
+            rcases hm.modes m with e | e
+            · rw [e, hg]
+            · exact e
+        refine ⟨?_, ?_, ?_, ?_, ?_, fun m => Or.inl (hlook m), fun _ => hlook, ?_, ?_⟩
+        · rw [hv4.users]; exact hm.users
+        · rw [hv4.ops]; exact hm.ops
+        · rw [hv4.halfops]; exact hm.halfops
+        · rw [hv4.voices]; exact hm.voices
+        · rw [hv4.topic]; exact hm.topic
+        · rw [hv4.bans]; exact hm.bans
+        · rw [hv4.bans]; exact hm.bansFull
     · have hb' : sc.has s.botKey = false := by simpa using hb
+      have hbi : s.botIn sc = false := hb'
       have hnone := bot_chan_none hc hch hb'
-      have hkey := hcw.key
       rw [← hkey] at hnone
       unfold Srv.modeIs
-      simp only [recvAll_cons, recvAll_nil, recv_emit, List.cons_append, List.nil_append]
+      simp only [hbi, Bool.false_eq_true, ↓reduceIte, recvAll_cons, recvAll_nil, recv_emit, List.cons_append, List.nil_append]
       rw [(late_replies_ignored hat sc.name hnone _).1, (late_replies_ignored hat sc.name hnone _).2.1]
       exact hc
   · exact hc
@@ -226,9 +268,9 @@ theorem ban_lines_ignored {s : Srv} {b : Bot} (h : AtSrv s b) (sc : SChan) (hnon
     rw [(late_replies_ignored h sc.name hnone _).2.2]
     exact ih
 
-theorem coupled_banlist {s : Srv} {b : Bot} (hw : SrvWF s) (hc : Coupled s b) (c : Str) :
-    Coupled (s.step (.banlist c)).1 (b.recvAll (s.step (.banlist c)).2) := by
-  simp only [Srv.step]
+theorem coupled_replyBans {s : Srv} {b : Bot} (hw : SrvWF s) (hc : Coupled s b) (c : Str) :
+    Coupled (s.replyBans c).1 (b.recvAll (s.replyBans c).2) := by
+  unfold Srv.replyBans
   split
   · rename_i sc hch
     rw [Srv.chan_eq] at hch
@@ -238,7 +280,8 @@ theorem coupled_banlist {s : Srv} {b : Bot} (hw : SrvWF s) (hc : Coupled s b) (c
     unfold Srv.banList
     simp only [recvAll_append]
     by_cases hb : sc.has s.botKey = true
-    · obtain ⟨ch, hbc, hm⟩ := view_channel' hc hch hb
+    · have hbi : s.botIn sc = true := hb
+      obtain ⟨ch, hbc, hm⟩ := view_channel' hc hch hb
       rw [ban_lines sc sc.bans hat (by rw [hkey]; exact hbc)]
       obtain ⟨b1, hb1⟩ : ∃ b1, b1 = ({ b with channels := (aset b.channels (lower sc.name)
           { ch with bans := sc.bans.foldl (fun acc m => sadd acc (lower m)) ch.bans }) } : Bot) := ⟨_, rfl⟩
@@ -248,22 +291,48 @@ theorem coupled_banlist {s : Srv} {b : Bot} (hw : SrvWF s) (hc : Coupled s b) (c
       rw [noop_line h1 "368".toList [sc.name, "End of channel ban list".toList] cmdOf_368]
       subst hb1
       rw [hkey]
-      apply coupled_of_frame hc (frame_setChan s (lower c) b _)
-      rw [hch]
-      show ChanRel s (some sc) (aget (aset b.channels (lower c) _) (lower c))
-      rw [aget_aset_self]
-      refine ⟨hb, ⟨hm.users, hm.ops, hm.halfops, hm.voices, hm.topic, hm.modes, ?_⟩⟩
-      intro x
-      show x ∈ sc.bans.foldl (fun acc m => sadd acc (lower m)) ch.bans ↔ _
-      rw [foldl_sadd_mem, hm.bans]; simp
+      simp only [hbi, ↓reduceIte]
+      refine coupled_of_frame hc (frame_setChan s (lower c) b _) rfl rfl rfl rfl ?_ ?_ (fun _ _ _ h => Or.inl h)
+      · intro k' hk'
+        exact ⟨rfl, mSynced_sadd _ _ _ hk'⟩
+      · rw [hch]
+        show ChanRel _ (lower c) (some sc) (aget (aset b.channels (lower c) _) (lower c))
+        rw [aget_aset_self]
+        refine ⟨hb, ⟨hm.users, hm.ops, hm.halfops, hm.voices, hm.topic, hm.modes, hm.modesFull, ?_, ?_⟩⟩
+        · intro x hx
+          have hx' : x ∈ sc.bans.foldl (fun acc m => sadd acc (lower m)) ch.bans := hx
+          rcases (foldl_sadd_mem _ _ _).mp hx' with h | h
+          · exact hm.bans x h
+          · exact h
+        · intro _ x hx
+          show x ∈ sc.bans.foldl (fun acc m => sadd acc (lower m)) ch.bans
+          exact (foldl_sadd_mem _ _ _).mpr (Or.inr hx)
     · have hb' : sc.has s.botKey = false := by simpa using hb
+      have hbi : s.botIn sc = false := hb'
       have hnone := bot_chan_none hc hch hb'
       rw [← hkey] at hnone
       rw [ban_lines_ignored hat sc hnone]
       simp only [recvAll_cons, recvAll_nil, recv_emit]
       rw [noop_line hat "368".toList [sc.name, "End of channel ban list".toList] cmdOf_368]
+      simp only [hbi, Bool.false_eq_true, ↓reduceIte]
       exact hc
   · exact hc
+
+/-- dropping or adding pending queries does not touch the coupling -/
+theorem coupled_pending {s : Srv} {b : Bot} (hc : Coupled s b) (p : List Req) : Coupled { s with pending := p } b :=
+  ⟨hc.nick, hc.chans, hc.hosts, hc.pfx, hc.cfgNick, hc.cfgIdent⟩
+
+theorem coupled_serve {s : Srv} {b : Bot} (hw : SrvWF s) (hc : Coupled s b) :
+    Coupled (s.step .serve).1 (b.recvAll (s.step .serve).2) := by
+  simp only [Srv.step]
+  split
+  · exact hc
+  · rename_i c rest _
+    exact coupled_replyWho (s := { s with pending := rest }) (wf_congr hw rfl rfl rfl rfl) (coupled_pending hc rest) c
+  · rename_i c rest _
+    exact coupled_replyMode (s := { s with pending := rest }) (wf_congr hw rfl rfl rfl rfl) (coupled_pending hc rest) c
+  · rename_i c rest _
+    exact coupled_replyBans (s := { s with pending := rest }) (wf_congr hw rfl rfl rfl rfl) (coupled_pending hc rest) c
 
 /-- every action of the reference server keeps the bot's view coupled to the server state -/
 theorem coupled_step {s : Srv} {b : Bot} (hw : SrvWF s) (hc : Coupled s b) (a : Act) (ha : a.ok) :
@@ -279,15 +348,16 @@ theorem coupled_step {s : Srv} {b : Bot} (hw : SrvWF s) (hc : Coupled s b) (a : 
   | topic src c t => exact coupled_topic hw hc src c t
   | chghost n i ho => exact coupled_chghost hw hc n i ho
   | names c => exact coupled_names hw hc c
-  | who c => exact coupled_who hw hc c
-  | modeis c => exact coupled_modeis hw hc c
-  | banlist c => exact coupled_banlist hw hc c
+  | who c => exact coupled_replyWho hw hc c
+  | modeis c => exact coupled_replyMode hw hc c
+  | banlist c => exact coupled_replyBans hw hc c
+  | serve => exact coupled_serve hw hc
   | reconnect => exact coupled_reconnect hw hc
 
 theorem coupled_init (cfg : Cfg) (hv : cfg.valid = true) : Coupled (Srv.init cfg) (Bot.init cfg.botNick cfg.botIdent) := by
   refine ⟨rfl, ?_, ?_, ?_, rfl, rfl⟩
   · intro k; simp [Srv.init, Bot.init, ChanRel]
-  · intro k u _ hv'; simp [Srv.init, Srv.visible] at hv'
+  · intro k u _ hv'; simp [Srv.init] at hv'
   · intro k sc hsc; simp [Srv.init] at hsc
 
 theorem run_inv (acts : List Act) : ∀ (s : Srv) (b : Bot), SrvWF s → Coupled s b → (∀ a ∈ acts, a.ok) →
@@ -297,6 +367,8 @@ theorem run_inv (acts : List Act) : ∀ (s : Srv) (b : Bot), SrvWF s → Coupled
   | cons a as ih =>
     intro s b hw hc hok
     unfold run
-    exact ih _ _ (wf_step hw a (hok a (by simp))) (coupled_step hw hc a (hok a (by simp))) (fun a' ha' => hok a' (by simp [ha']))
+    have h1 := wf_step hw a (hok a (by simp))
+    have h2 := coupled_step hw hc a (hok a (by simp))
+    exact ih _ _ (wf_enqueue h1 _) (coupled_pending h2 _) (fun a' ha' => hok a' (by simp [ha']))
 
 end C10
